@@ -69,6 +69,24 @@ func parseParams(leg string, s string) params {
 }
 
 func runCase(o *hx.Out, p params) (result string, total int64) {
+	pendingStuck = ""
+	result, total = runCase1(o, p)
+	if pendingStuck != "" {
+		first := pendingStuck
+		pendingStuck = ""
+		cleanTmp()
+		result, total = runCase1(o, p)
+		if pendingStuck != "" {
+			o.Violation("correspondence:schedule-not-realisable", pendingStuck)
+		} else {
+			o.Count("schedule-stuck-once-then-completed")
+			fmt.Fprintln(os.Stderr, "completed at the second attempt: "+first)
+		}
+	}
+	return result, total
+}
+
+func runCase1(o *hx.Out, p params) (result string, total int64) {
 	switch p.leg {
 	case "leader":
 		return runLeaderCase(o, p)
@@ -94,8 +112,14 @@ func record(o *hx.Out, p params, res string) {
 // database and the WAL (they are sampled too, but thinly).
 var startOps int64
 
-// crashPoints picks the crash instants for a workload with total operations.
+// crashPoints picks the crash instants for a workload with total operations. The number of random draws is
+// fixed (k), whatever total and start are: the run stays reproducible although Pebble's background work makes
+// the operation count of a workload vary by an operation or two between runs.
 func crashPoints(r *hx.Rng, total int64, start int64, k int, all bool) []int64 {
+	fr := make([]uint64, k)
+	for i := range fr {
+		fr[i] = r.U64()
+	}
 	if all || int64(k) >= total {
 		res := make([]int64, total)
 		for i := range res {
@@ -103,29 +127,38 @@ func crashPoints(r *hx.Rng, total int64, start int64, k int, all bool) []int64 {
 		}
 		return res
 	}
+	if start <= 0 || start >= total {
+		start = 0
+	}
 	seen := map[int64]bool{}
 	var res []int64
 	add := func(i int64) {
-		if i >= 0 && i < total && !seen[i] {
+		if i >= total {
+			i = total - 1
+		}
+		for ; i >= 0 && seen[i]; i-- {
+		}
+		if i >= 0 {
 			seen[i] = true
 			res = append(res, i)
 		}
 	}
-	if start <= 0 || start >= total {
-		start = 0
-	}
 	early := k / 6
-	for i := 0; i < early && start > 0; i++ {
-		add(int64(r.Intn(int(start))))
+	if start == 0 {
+		early = 0
 	}
-	// stratified over the part of the run in which the workload executes
 	span := total - start
-	rest := k - len(res)
-	for i := 0; i < rest; i++ {
-		add(start + int64(i)*span/int64(rest) + int64(r.Intn(int(span/int64(rest))+1)))
-	}
-	for tries := 0; len(res) < k && tries < 10*k; tries++ {
-		add(start + int64(r.Intn(int(span))))
+	rest := k - early
+	for i := 0; i < k; i++ {
+		if i < early {
+			add(int64(fr[i] % uint64(start)))
+		} else {
+			// stratified over the part of the run in which the workload executes
+			j := int64(i - early)
+			lo := start + j*span/int64(rest)
+			w := span/int64(rest) + 1
+			add(lo + int64(fr[i]%uint64(w)))
+		}
 	}
 	sort.Slice(res, func(a, b int) bool { return res[a] < res[b] })
 	return res
@@ -197,12 +230,18 @@ func main() {
 			if legBudget-used < k {
 				k = legBudget - used
 			}
-			for _, cp := range crashPoints(r, total, startOps, k, thorough) {
+			wr := r.Fork() // everything about this workload's crash instants comes from its own generator
+			kk := k
+			if thorough {
+				kk = 16
+			}
+			for _, cp := range crashPoints(wr, total, startOps, kk, thorough) {
 				q := p
 				q.crashAt = cp
-				q.mode = []string{"p", "p", "k"}[r.Intn(3)]
-				q.cut = []int{0, 100, 50, r.Intn(101)}[r.Intn(4)]
-				q.restart = []string{"leader", "follower"}[r.Intn(2)]
+				pr := hx.NewRng(p.wseed ^ uint64(cp)*0x9E3779B97F4A7C15)
+				q.mode = []string{"p", "p", "k"}[pr.Intn(3)]
+				q.cut = []int{0, 100, 50, pr.Intn(101)}[pr.Intn(4)]
+				q.restart = []string{"leader", "follower"}[pr.Intn(2)]
 				res, _ := runCase(o, q)
 				record(o, q, res)
 				cleanTmp()
